@@ -220,41 +220,24 @@ class Rig:
             self._init_pool()
 
     def _init_pool(self):
-        """The real ProcessPoolDownloader (validation, request) with the real GetObjectSubmitter
-        and GetObjectWorker, whose loops are run by hand in this process over plain queues."""
-        import multiprocessing
+        """The real ProcessPoolDownloader built by its public constructor and driven through its
+        public API; what it would fork runs in this process (harness/poolrig.py): the real
+        GetObjectSubmitter and GetObjectWorker loops run to completion when shutdown() joins them."""
+        from harness import poolrig
         from s3transfer import processpool as pp
-        client = self.client
-
-        class Factory:
-            def create_client(self):
-                return client
-
-        real_q = multiprocessing.Queue
-        multiprocessing.Queue = lambda *a, **k: queue.Queue()
-        try:
-            d = pp.ProcessPoolDownloader(config=pp.ProcessTransferConfig(
-                multipart_threshold=THRESHOLD, multipart_chunksize=CHUNK, max_request_processes=1))
-        finally:
-            multiprocessing.Queue = real_q
-        d._transfer_monitor = pp.TransferMonitor()
-        d._started = True            # nothing is started: the loops are run by hand in step()
-        self.pool = d
+        self.rig = poolrig.SyncPool(self.client).install()
+        self.pool = pp.ProcessPoolDownloader(config=pp.ProcessTransferConfig(
+            multipart_threshold=THRESHOLD, multipart_chunksize=CHUNK, max_request_processes=1))
         self.pp = pp
-        self.submitter = pp.GetObjectSubmitter(
-            transfer_config=d._transfer_config, client_factory=Factory(),
-            transfer_monitor=d._transfer_monitor, osutil=d._osutil,
-            download_request_queue=d._download_request_queue, worker_queue=d._worker_queue)
-        self.submitter._client = self.submitter._client_factory.create_client()
-        self.worker = pp.GetObjectWorker(queue=d._worker_queue, client_factory=Factory(),
-                                         transfer_monitor=d._transfer_monitor, osutil=d._osutil)
-        self.worker._client = self.worker._client_factory.create_client()
 
     def close(self):
         if self.manager is not None:
             self.manager.shutdown()
         if self.pool is not None:
-            self.pool._started = False
+            try:
+                self.pool.shutdown()
+            finally:
+                self.rig.uninstall()
 
     def step(self, mode, extra, size):
         """extra is passed to the front-end AS IS (the caller's object, or None)."""
@@ -330,17 +313,22 @@ class Rig:
                 except ValueError as e:
                     r = rejected(e)
                     if r:
-                        return r if d._download_request_queue.empty() else 'REJECT-AFTER-REQUESTS'
+                        return r if not self.rig.pending_requests() else 'REJECT-AFTER-REQUESTS'
                     raise
-                d._download_request_queue.put(pp.SHUTDOWN_SIGNAL)
-                self.submitter._do_run()
-                d._worker_queue.put(pp.SHUTDOWN_SIGNAL)
-                self.worker._do_run()
-                exc = d._transfer_monitor.get_exception(fut.meta.transfer_id)
-                if exc is not None:
-                    return f'EXC:{type(exc).__name__}'
-                if not d._transfer_monitor.is_done(fut.meta.transfer_id):
+                d.shutdown()             # stop signals, then the submitter's and the worker's own loops run
+                # One downloader object serves the whole sequence, i.e. it is restarted by the next
+                # download_file().  The downloader never clears its worker list, so every later
+                # shutdown leaves surplus stop signals in the job queue (side observation S-pool-restart
+                # in DESIGN.md 9.9; outside C15 and outside C19's one-cycle quantifier): drop them here.
+                for q_ in self.rig.queues:
+                    while not q_.empty():
+                        q_.get_nowait()
+                if not fut.done():
                     return 'EXC:NotDone'
+                try:
+                    fut.result()
+                except Exception as exc:     # noqa: the transfer's recorded failure
+                    return f'EXC:{type(exc).__name__}'
         except Exception as e:   # noqa: BLE001  -- canonicalised, compared with the model like any output
             return f'EXC:{type(e).__name__}'
         return canon_calls(client.log[n0:], self.copy_source_given)
